@@ -41,20 +41,20 @@ Lemma l_mem_false y l : l_mem y l = false <-> ~ In y l.
 Proof. rewrite <- notin_true. unfold notin. rewrite negb_true_iff. tauto. Qed.
 
 (* ---- uniq ------------------------------------------------------------------------------- *)
-Lemma uniq_cons x l : uniq (x :: l) = x :: filter (fun y => negb (Nat.eqb x y)) (uniq l).
+Lemma uniq_cons x l : uniq (x :: l) = x :: filter (fun y => negb (N.eqb x y)) (uniq l).
 Proof. reflexivity. Qed.
 
 Lemma In_uniq x l : In x (uniq l) <-> In x l.
 Proof.
   revert x; induction l as [|y l IH]; intros x; [simpl; tauto|].
-  rewrite uniq_cons. simpl. rewrite filter_In, IH. rewrite negb_true_iff, Nat.eqb_neq.
-  destruct (Nat.eq_dec y x); [subst; tauto|tauto].
+  rewrite uniq_cons. simpl. rewrite filter_In, IH. rewrite negb_true_iff, N.eqb_neq.
+  destruct (N.eq_dec y x); [subst; tauto|tauto].
 Qed.
 
 Lemma NoDup_uniq l : NoDup (uniq l).
 Proof.
   induction l as [|y l IH]; [constructor|]. rewrite uniq_cons. constructor.
-  - intros H. apply filter_In in H. destruct H as [_ H]. rewrite Nat.eqb_refl in H. discriminate.
+  - intros H. apply filter_In in H. destruct H as [_ H]. rewrite N.eqb_refl in H. discriminate.
   - apply NoDup_filter. exact IH.
 Qed.
 
@@ -64,9 +64,9 @@ Proof.
   - simpl. symmetry. apply filter_id. intros; reflexivity.
   - inversion ND as [|? ? N1 N2]; subst. simpl app. rewrite uniq_cons, (IH N2).
     rewrite filter_app. f_equal. f_equal.
-    + apply filter_id. intros y Hy. rewrite negb_true_iff, Nat.eqb_neq. intros ->. contradiction.
+    + apply filter_id. intros y Hy. rewrite negb_true_iff, N.eqb_neq. intros ->. contradiction.
     + rewrite filter_comp. apply filter_ext. intros y. unfold notin, l_mem. simpl.
-      rewrite negb_orb. rewrite (Nat.eqb_sym y x). apply andb_comm.
+      rewrite negb_orb. rewrite (N.eqb_sym y x). apply andb_comm.
 Qed.
 
 Lemma uniq_nodup l : NoDup l -> uniq l = l.
@@ -78,7 +78,7 @@ Proof.
   destruct (f x) eqn:E.
   - rewrite uniq_cons, IH. f_equal. rewrite !filter_comp. apply filter_ext. intros y. apply andb_comm.
   - rewrite IH. rewrite filter_comp. apply filter_ext_in. intros y Hy.
-    destruct (Nat.eqb x y) eqn:E2; simpl; [|reflexivity]. apply Nat.eqb_eq in E2. subst. exact E.
+    destruct (N.eqb x y) eqn:E2; simpl; [|reflexivity]. apply N.eqb_eq in E2. subst. exact E.
 Qed.
 
 Lemma fold_l_add xs : forall l, NoDup l -> fold_left l_add xs l = uniq (l ++ xs).
@@ -88,7 +88,7 @@ Proof.
   - unfold l_add at 2. destruct (l_mem x l) eqn:M.
     + rewrite (IH l ND). rewrite !(uniq_app l _ ND). f_equal. rewrite uniq_cons. simpl.
       unfold notin at 2. rewrite M. simpl. rewrite filter_comp. apply filter_ext_in. intros y Hy.
-      destruct (Nat.eqb x y) eqn:E; simpl; [|reflexivity]. apply Nat.eqb_eq in E. subst y.
+      destruct (N.eqb x y) eqn:E; simpl; [|reflexivity]. apply N.eqb_eq in E. subst y.
       unfold notin. rewrite M. reflexivity.
     + rewrite IH.
       * rewrite <- app_assoc. reflexivity.
@@ -96,12 +96,12 @@ Proof.
 Qed.
 
 (* ---- list.remove on a duplicate-free list ----------------------------------------------------- *)
-Lemma l_remove_filter x l : NoDup l -> l_remove x l = filter (fun y => negb (Nat.eqb x y)) l.
+Lemma l_remove_filter x l : NoDup l -> l_remove x l = filter (fun y => negb (N.eqb x y)) l.
 Proof.
   induction 1 as [|y l N _ IH]; simpl; [reflexivity|].
-  destruct (Nat.eqb x y) eqn:E; simpl.
-  - apply Nat.eqb_eq in E. subst y. symmetry. apply filter_id. intros z Hz.
-    rewrite negb_true_iff, Nat.eqb_neq. intros ->. contradiction.
+  destruct (N.eqb x y) eqn:E; simpl.
+  - apply N.eqb_eq in E. subst y. symmetry. apply filter_id. intros z Hz.
+    rewrite negb_true_iff, N.eqb_neq. intros ->. contradiction.
   - f_equal. exact IH.
 Qed.
 
@@ -112,15 +112,15 @@ Proof.
   - symmetry. apply filter_id. intros; reflexivity.
   - rewrite IH by (rewrite (l_remove_filter x l ND); apply NoDup_filter; exact ND).
     rewrite (l_remove_filter x l ND), filter_comp. apply filter_ext. intros y.
-    unfold notin, l_mem. simpl. rewrite negb_orb. rewrite (Nat.eqb_sym y x). reflexivity.
+    unfold notin, l_mem. simpl. rewrite negb_orb. rewrite (N.eqb_sym y x). reflexivity.
 Qed.
 
 Lemma l_count_nodup x l : NoDup l -> l_count x l = if l_mem x l then 1 else 0.
 Proof.
   unfold l_count, l_mem. induction 1 as [|y l N _ IH]; simpl; [reflexivity|].
-  destruct (Nat.eqb x y) eqn:E; simpl.
-  - apply Nat.eqb_eq in E. subst y. rewrite filter_none; [reflexivity|].
-    intros z Hz. apply Nat.eqb_neq. intros ->. contradiction.
+  destruct (N.eqb x y) eqn:E; simpl.
+  - apply N.eqb_eq in E. subst y. rewrite filter_none; [reflexivity|].
+    intros z Hz. apply N.eqb_neq. intros ->. contradiction.
   - rewrite IH. reflexivity.
 Qed.
 
@@ -128,7 +128,7 @@ Qed.
 Lemma ins_sorted_perm x l : Permutation (ins_sorted x l) (x :: l).
 Proof.
   induction l as [|y l IH]; simpl; [apply Permutation_refl|].
-  destruct (Nat.leb x y); [apply Permutation_refl|].
+  destruct (N.leb x y); [apply Permutation_refl|].
   eapply Permutation_trans; [apply perm_skip; exact IH|apply perm_swap].
 Qed.
 
@@ -144,17 +144,17 @@ Proof.
   eapply Permutation_trans; [apply Permutation_sym, Permutation_rev|apply sort_nat_perm].
 Qed.
 
-Lemma ins_sorted_sorted x l : Sorted le l -> Sorted le (ins_sorted x l).
+Lemma ins_sorted_sorted x l : Sorted N.le l -> Sorted N.le (ins_sorted x l).
 Proof.
   induction l as [|y l IH]; simpl; intros H.
   - constructor; constructor.
-  - destruct (Nat.leb x y) eqn:E.
-    + apply Nat.leb_le in E. constructor; [exact H|constructor; exact E].
-    + apply Nat.leb_gt in E. inversion H as [|? ? H1 H2]; subst. constructor; [apply IH; exact H1|].
+  - destruct (N.leb x y) eqn:E.
+    + apply N.leb_le in E. constructor; [exact H|constructor; exact E].
+    + apply N.leb_gt in E. inversion H as [|? ? H1 H2]; subst. constructor; [apply IH; exact H1|].
       destruct l as [|z l]; simpl.
       * constructor. lia.
-      * destruct (Nat.leb x z); constructor; [lia|]. inversion H2; subst. assumption.
+      * destruct (N.leb x z); constructor; [lia|]. inversion H2; subst. assumption.
 Qed.
 
-Lemma sort_nat_sorted l : Sorted le (sort_nat l).
+Lemma sort_nat_sorted l : Sorted N.le (sort_nat l).
 Proof. induction l as [|x l IH]; simpl; [constructor|apply ins_sorted_sorted; exact IH]. Qed.
